@@ -426,6 +426,205 @@ fn adjacency_items(items: &[Item]) -> Vec<Item> {
     out
 }
 
+/// Serialises an index built by a sync indexer into an index item that points at its data item.
+fn index_item(kind: Kind, data_name: &str, write: impl FnOnce(&mut Vec<u8>) -> std::io::Result<()>) -> Option<Item> {
+    let mut out = Vec::new();
+    write(&mut out).ok()?;
+    let tail = data_name.replace('/', "-");
+    Some(Item { kind, name: format!("{}/c16-of-{tail}", kind.name()), bytes: out, side: corpus::Side { indexed_item: Some(data_name.to_string()), ..corpus::Side::default() } })
+}
+
+/// Builds the index of a BGZF-wrapped data item with the sync path-based indexer of its kind (scratch file).
+fn index_of(data: &Item, scratch: &std::path::Path) -> Option<Item> {
+    let ext = match data.kind {
+        Kind::Bam => "bam",
+        Kind::SamGz => "sam.gz",
+        Kind::Bcf => "bcf",
+        Kind::VcfGz => "vcf.gz",
+        _ => return None,
+    };
+    let clean: String = data.name.chars().map(|c| if c.is_ascii_alphanumeric() || c == '-' { c } else { '_' }).collect();
+    let path = scratch.join(format!("{clean}.{ext}"));
+    std::fs::write(&path, &data.bytes).ok()?;
+    let item = guard::catch(|| -> Option<Item> {
+        match data.kind {
+            Kind::Bam => {
+                let index = noodles_bam::fs::index(&path).ok()?;
+                index_item(Kind::Bai, &data.name, |out| noodles_bam::bai::io::Writer::new(out).write_index(&index))
+            }
+            Kind::SamGz | Kind::Bcf => {
+                let index = if data.kind == Kind::SamGz { noodles_sam::fs::index(&path).ok()? } else { noodles_bcf::fs::index(&path).ok()? };
+                index_item(Kind::Csi, &data.name, |out| {
+                    let mut w = noodles_csi::io::Writer::new(out);
+                    w.write_index(&index)?;
+                    w.get_mut().try_finish()?;
+                    let _ = w.into_inner().into_inner();
+                    Ok(())
+                })
+            }
+            _ => {
+                let index = noodles_vcf::fs::index(&path).ok()?;
+                index_item(Kind::Tbi, &data.name, |out| {
+                    let mut w = noodles_tabix::io::Writer::new(out);
+                    w.write_index(&index)?;
+                    w.try_finish()?;
+                    let _ = w.into_inner().into_inner();
+                    Ok(())
+                })
+            }
+        }
+    })
+    .ok()
+    .flatten();
+    let _ = std::fs::remove_file(&path);
+    item
+}
+
+/// Indexed files for the query part, all deterministic in the seed:
+/// * BGZF layouts of corpus BAM / SAM.gz / BCF / VCF.gz payloads built with the independent encoder so that members END
+///   EXACTLY at record boundaries: `cyc123` (header alone in its member, then 1, 2, 3, 1, 2, 3 … records per member),
+///   `binshift` (a member starts one record BEFORE the first record of every new 16 kb index window, so that the first
+///   record of a bin / chunk sits at a non-zero offset of its member while the member before ends at a record end), and
+///   `straddle` (211-byte members, records straddle members);
+/// * BCF files whose record spans come from INFO END / SVLEN (fileformat 4.3 and 4.5), with records of another contig
+///   inside a chunk, a record at POS 0 (if the writer and the indexer take it), and a copy whose `rlen` fields say
+///   "length of REF" although INFO END says otherwise (as writers other than htslib emit it).
+fn query_items(items: &[Item], scratch: &std::path::Path, quick: bool) -> Vec<Item> {
+    let mut out = Vec::new();
+    let push = |data: Item, out: &mut Vec<Item>| {
+        if let Some(ix) = index_of(&data, scratch) {
+            out.push(data);
+            out.push(ix);
+        }
+    };
+    let split_header = |h: &[u8]| -> Vec<Vec<u8>> { h.chunks(60_000).map(|c| c.to_vec()).collect() };
+    for it in items {
+        if !matches!(it.kind, Kind::Bam | Kind::SamGz | Kind::Bcf | Kind::VcfGz) || it.name.contains("c16-") {
+            continue;
+        }
+        let wanted = it.name.contains("multiblock") || (!quick && (it.name.contains("/small-") || it.name.contains("natural")));
+        if !wanted {
+            continue;
+        }
+        let (Some(payload), Some(mut b)) = (corpus::inflated_payload(it), corpus::record_boundaries_in_payload(it)) else { continue };
+        if matches!(it.kind, Kind::SamGz | Kind::VcfGz) {
+            let c = if it.kind == Kind::SamGz { b'@' } else { b'#' };
+            b.retain(|&p| p >= payload.len() || payload[p] != c);
+        }
+        if b.len() < 4 {
+            continue;
+        }
+        let tail = it.name.rsplit('/').next().unwrap_or("x").to_string();
+        let mode = match it.kind {
+            Kind::Bam => qy::Mode::BamBai,
+            Kind::SamGz => qy::Mode::SamGzCsi,
+            Kind::Bcf => qy::Mode::BcfCsi,
+            _ => qy::Mode::VcfGzTbi,
+        };
+        let n_rec = b.len() - 1;
+        let rec = |i: usize| payload[b[i]..b[i + 1]].to_vec();
+        let group = |sizes: &mut dyn FnMut(usize) -> bool| -> Vec<Vec<u8>> {
+            // `sizes(i)` = a member boundary lies before record i
+            let mut blocks = split_header(&payload[..b[0]]);
+            let mut cur = Vec::new();
+            for i in 0..n_rec {
+                if i > 0 && sizes(i) && !cur.is_empty() {
+                    blocks.push(std::mem::take(&mut cur));
+                }
+                cur.extend_from_slice(&rec(i));
+                if cur.len() > 50_000 {
+                    blocks.push(std::mem::take(&mut cur));
+                }
+            }
+            if !cur.is_empty() {
+                blocks.push(cur);
+            }
+            blocks
+        };
+        // cyc123
+        let mut next = 1usize;
+        let mut k = 1usize;
+        let blocks = group(&mut |i| {
+            if i == next {
+                k = k % 3 + 1;
+                next = i + k;
+                true
+            } else {
+                false
+            }
+        });
+        push(Item { kind: it.kind, name: format!("{}/c16-q-cyc123-{tail}", it.kind.name()), bytes: obgzf::build_file(&blocks, obgzf::Enc::Deflate(6), 1), side: corpus::Side::default() }, &mut out);
+        // binshift
+        if let Ok(Ok(spans)) = guard::catch(|| qy::record_spans(mode, &it.bytes, &it.side)) {
+            let win = |i: usize| spans.get(i).map(|(n, s, _)| (n.clone(), (s.saturating_sub(1)) >> 14));
+            let mut since = 0usize;
+            let blocks = group(&mut |i| {
+                since += 1;
+                // boundary before record i when record i+1 opens a new window (member = [i, i+1, …]); else every 4 records
+                let cut = (win(i + 1).is_some() && win(i + 1) != win(i)) || since >= 4;
+                if cut {
+                    since = 0;
+                }
+                cut
+            });
+            push(Item { kind: it.kind, name: format!("{}/c16-q-binshift-{tail}", it.kind.name()), bytes: obgzf::build_file(&blocks, obgzf::Enc::Deflate(6), 1), side: corpus::Side::default() }, &mut out);
+        }
+        // straddle
+        push(Item { kind: it.kind, name: format!("{}/c16-q-straddle-{tail}", it.kind.name()), bytes: obgzf::reseal(&payload, 211), side: corpus::Side::default() }, &mut out);
+    }
+
+    // --- BCF: spans from INFO END / SVLEN
+    let header = |ff: &str, svlen_number: &str| {
+        format!(
+            "##fileformat=VCFv{ff}\n##contig=<ID=sq0,length=200000>\n##contig=<ID=sq1,length=200000>\n##ALT=<ID=DEL,Description=\"Deletion\">\n##INFO=<ID=END,Number=1,Type=Integer,Description=\"End position\">\n##INFO=<ID=SVLEN,Number={svlen_number},Type=Integer,Description=\"SV length\">\n##INFO=<ID=SVTYPE,Number=1,Type=String,Description=\"SV type\">\n##INFO=<ID=DP,Number=1,Type=Integer,Description=\"Depth\">\n#CHROM\tPOS\tID\tREF\tALT\tQUAL\tFILTER\tINFO\n"
+        )
+    };
+    let v43 = format!(
+        "{}sq0\t100\t.\tA\t<DEL>\t.\t.\tSVTYPE=DEL;END=5000\nsq0\t300\t.\tACGT\tA\t.\t.\tDP=5\nsq0\t6000\t.\tN\t<DEL>\t.\t.\tSVTYPE=DEL;END=30000\nsq0\t7000\t.\tG\tT\t.\t.\t.\nsq0\t40000\t.\tC\t<DEL>\t.\t.\tSVTYPE=DEL;END=40500\nsq1\t50\t.\tA\t<DEL>\t.\t.\tSVTYPE=DEL;END=20000\nsq1\t70000\t.\tT\tG\t.\t.\tDP=1\n",
+        header("4.3", ".")
+    );
+    let v45 = format!(
+        "{}sq0\t100\t.\tA\t<DEL>\t.\t.\tSVTYPE=DEL;SVLEN=4901\nsq0\t300\t.\tACGT\tA\t.\t.\tDP=5\nsq0\t6000\t.\tN\t<DEL>\t.\t.\tSVTYPE=DEL;SVLEN=24001\nsq0\t7000\t.\tG\tT\t.\t.\t.\nsq0\t40000\t.\tC\t<DEL>\t.\t.\tSVTYPE=DEL;SVLEN=501\nsq1\t50\t.\tA\t<DEL>\t.\t.\tSVTYPE=DEL;SVLEN=19951\nsq1\t70000\t.\tT\tG\t.\t.\tDP=1\n",
+        header("4.5", "A")
+    );
+    let vtel = format!("{}sq0\t0\t.\tN\t<DEL>\t.\t.\tSVTYPE=DEL;END=900\nsq0\t300\t.\tACGT\tA\t.\t.\tDP=5\nsq1\t0\t.\tN\tNA\t.\t.\t.\nsq1\t60\t.\tT\tG\t.\t.\tDP=1\n", header("4.3", "."));
+    let written = |kind: Kind, name: &str, model: &str, flush_every: usize| -> Option<Item> {
+        let mut item = Item { kind, name: name.into(), bytes: Vec::new(), side: corpus::Side { model: Some(model.as_bytes().to_vec()), writable: true, flush_every, ..corpus::Side::default() } };
+        let mut bytes = Vec::new();
+        match guard::catch(|| corpus::write_history(&item, &mut bytes)) {
+            Ok(Ok(())) => {
+                item.bytes = bytes;
+                Some(item)
+            }
+            _ => None,
+        }
+    };
+    for (name, text) in [("bcf/c16-q-sv-spans-from-info-end-v4.3", &v43), ("bcf/c16-q-sv-spans-from-info-svlen-v4.5", &v45), ("bcf/c16-q-records-at-pos-0-telomere", &vtel)] {
+        if let Some(item) = written(Kind::Bcf, name, text, 2) {
+            push(item, &mut out);
+        }
+    }
+    // rlen = length of REF although INFO END says otherwise: patch the raw BCF, one member per record
+    if let Some(raw) = written(Kind::BcfRaw, "bcfraw/c16-tmp", &v43, 0) {
+        if let Some(b) = corpus::record_boundaries_in_payload(&raw) {
+            let mut bytes = raw.bytes.clone();
+            let ref_len = [1u32, 4, 1, 1, 1, 1, 1];
+            for (i, w) in b.windows(2).enumerate() {
+                // l_shared u32, l_indiv u32, chrom i32, pos i32, rlen i32
+                if let (Some(slot), Some(l)) = (bytes.get_mut(w[0] + 16..w[0] + 20), ref_len.get(i)) {
+                    slot.copy_from_slice(&l.to_le_bytes());
+                }
+            }
+            let mut blocks = vec![bytes[..b[0]].to_vec()];
+            for w in b.windows(2) {
+                blocks.push(bytes[w[0]..w[1]].to_vec());
+            }
+            push(Item { kind: Kind::Bcf, name: "bcf/c16-q-sv-rlen-is-ref-length-info-end-says-more-v4.3".into(), bytes: obgzf::build_file(&blocks, obgzf::Enc::Deflate(6), 1), side: corpus::Side::default() }, &mut out);
+        }
+    }
+    out
+}
+
 fn salt_of(name: &str, extra: u64) -> u64 {
     fnv1a(name.as_bytes()).wrapping_add(extra.wrapping_mul(0x9E37_79B9)) % 1_000_003
 }
@@ -441,6 +640,11 @@ fn gen_world(ctx: &Ctx) -> World {
         items.extend(local_items());
         let adj = adjacency_items(&items);
         items.extend(adj);
+        let scratch = ctx.work.join(format!("c16-q-{}", std::process::id()));
+        let _ = std::fs::create_dir_all(&scratch);
+        let qi = query_items(&items, &scratch, quick);
+        let _ = std::fs::remove_dir_all(&scratch);
+        items.extend(qi);
     }
     let mut cases = Vec::new();
     let item_filter = ctx.param("item").map(|s| s.to_string());
@@ -554,7 +758,7 @@ fn gen_world(ctx: &Ctx) -> World {
             let Some(dx) = items.iter().position(|d| &d.name == dname) else { continue };
             for mode in qy::Mode::for_kinds(items[dx].kind, index.kind) {
                 for q in 0..n_q {
-                    let salt = salt_of(&index.name, 9000 + q + mode as u64 * 17);
+                    let salt = salt_of(&index.name, 9000 + q + mode.ordinal() * 17);
                     let n = if quick { 3 } else { 8 };
                     let mut cfgs = cfgs_rotating(n, salt, seed, mode.uses_bgzf(), items[dx].bytes.len());
                     for c in &mut cfgs {
@@ -1046,6 +1250,19 @@ fn seek_target_class(walk: &obgzf::Walk, file_len: usize, v: u64) -> &'static st
     }
 }
 
+/// Record counts after which a sequential read sits exactly at the end of a BGZF member (see `qy::counts_at_block_ends`).
+fn block_end_counts(item: &Item, mode: qy::Mode) -> Vec<usize> {
+    let (Some(payload), Some(mut b), Ok(walk)) = (corpus::inflated_payload(item), corpus::record_boundaries_in_payload(item), obgzf::walk(&item.bytes)) else {
+        return Vec::new();
+    };
+    if matches!(item.kind, Kind::SamGz | Kind::VcfGz) && mode != qy::Mode::GenericTbi {
+        // line starts: drop the header lines (the generic indexed reader starts at position 0 and reads them too)
+        let c = if item.kind == Kind::SamGz { b'@' } else { b'#' };
+        b.retain(|&p| p >= payload.len() || payload[p] != c);
+    }
+    qy::counts_at_block_ends(&b, &walk.starts)
+}
+
 fn run_qy(o: &mut CaseOut, data: &Item, index: &Item, mode: qy::Mode, qseed: u64, cfgs: &[Cfg], quick: bool) {
     let module = format!("query-{}", mode.name());
     let refs = match guard::catch(|| qy::references(mode, &data.bytes)) {
@@ -1055,10 +1272,22 @@ fn run_qy(o: &mut CaseOut, data: &Item, index: &Item, mode: qy::Mode, qseed: u64
             return;
         }
     };
+    let spans = match guard::catch(|| qy::record_spans(mode, &data.bytes, &data.side)) {
+        Ok(Ok(s)) => s,
+        _ => Vec::new(),
+    };
+    let at_block_end = if mode.supports_read() { block_end_counts(data, mode) } else { Vec::new() };
     let mut rng = Rng::new(qseed, 0x9E, fnv1a(index.name.as_bytes()));
-    let queries = qy::gen_queries(&mut rng, mode, &refs, if quick { 6 } else { 10 });
+    let queries = qy::gen_queries(&mut rng, mode, &refs, &spans, &at_block_end, if quick { 5 } else { 9 });
+    let walked = if mode.uses_bgzf() { obgzf::walk_prefix(&data.bytes).ok() } else { None };
+    let norm = |mut t: Vec<String>| -> Vec<String> {
+        if let Some((walk, end)) = &walked {
+            normalise_positions(&mut t, walk, *end, data.bytes.len());
+        }
+        t
+    };
     let expected = match guard::catch(|| qy::run_sync(mode, &data.bytes, &index.bytes, &data.side, &queries)) {
-        Ok(Ok(t)) => strip_all(t),
+        Ok(Ok(t)) => norm(strip_all(t)),
         Ok(Err(e)) => {
             o.inconclusive.push(format!("{} + {}: the sync side cannot start the query history: {e}", data.name, index.name));
             return;
@@ -1069,21 +1298,20 @@ fn run_qy(o: &mut CaseOut, data: &Item, index: &Item, mode: qy::Mode, qseed: u64
         }
     };
     o.count(&format!("query_records_sync[{}]", mode.name()), expected.iter().filter(|s| s.starts_with("R:")).count() as u64);
-    let starts = match guard::catch(|| qy::chunk_starts(mode, &data.bytes, &index.bytes, &queries)) {
-        Ok(Ok(s)) => s,
-        _ => queries.iter().map(|_| None).collect(),
-    };
+    for q in &queries {
+        o.count(&format!("query_ops[{}]", q.class()), 1);
+    }
     let frames = if mode.uses_bgzf() { frames_of(&data.bytes) } else { Vec::new() };
     let bytes = Arc::new(data.bytes.clone());
     for cfg in cfgs {
-        let wl = if mode.uses_bgzf() && mode != qy::Mode::GenericTbi { Some(cfg.workers) } else { None };
+        let wl = if mode.has_worker_count() { Some(cfg.workers) } else { None };
         pair_counters(o, &module, "query", cfg, wl);
         o.count("queries", queries.len() as u64);
         let mut prng = Rng::new(cfg.script.seed, 0xD3, cfg.workers as u64);
         hook::arm(&frames, hook::make_delays(cfg.plan, frames.len(), cfg.workers, &mut prng));
         let src = PollRead::new(bytes.clone(), cfg.script.clone());
         let stats = src.stats.clone();
-        let res = rt::run(cfg.flavor, qy::run_async(mode, src, index.bytes.clone(), data.side.clone(), queries.clone(), cfg.workers));
+        let res = rt::run(cfg.flavor, qy::run_async(mode, src, data.bytes.clone(), index.bytes.clone(), data.side.clone(), queries.clone(), cfg.workers));
         let log = hook::disarm();
         stats_fold(o, &module, &stats.lock().unwrap());
         if mode.uses_bgzf() {
@@ -1098,24 +1326,42 @@ fn run_qy(o: &mut CaseOut, data: &Item, index: &Item, mode: qy::Mode, qseed: u64
                 format!("{} + {}: the async side failed before the first query ({e}) where the sync side succeeded [{}]", data.name, index.name, cfg_json(cfg)),
             ),
             Ok(Ok(got_raw)) => {
-                let got = strip_all(got_raw.clone());
-                // every query of the history is compared on its own (each query starts with a seek)
+                let got = norm(strip_all(got_raw.clone()));
+                // every operation of the history is compared on its own: a query / rewind starts with a seek; a sequential
+                // read depends on where the previous operation left the reader, so after a difference sequential reads
+                // count as tainted until the next seeking operation
                 let (es, gs) = (segments(&expected), segments(&got));
                 let mut sigs: Vec<String> = Vec::new();
+                let mut tainted = false;
                 for qi in 0..es.len().max(gs.len()) {
                     let (e, g) = (es.get(qi).copied().unwrap_or(&[]), gs.get(qi).copied().unwrap_or(&[]));
+                    let q = queries.get(qi);
+                    if !matches!(q, Some(qy::Q::Read(_))) {
+                        tainted = false;
+                    }
+                    if tainted {
+                        continue;
+                    }
                     o.count("query_segments_compared", 1);
                     let Some((i, class)) = diff_class(e, g) else { continue };
-                    // root cause check: does this query start with a poll_seek to the position of the previous poll_seek?
-                    let prev_last = starts.iter().take(qi).rev().find_map(|s| s.map(|x| x.1));
-                    let same_seek = matches!((starts.get(qi).copied().flatten(), prev_last), (Some((first, _)), Some(prev)) if first == prev);
-                    let qclass = match queries.get(qi) {
-                        Some(qy::Q::Unmapped) => "unmapped",
-                        Some(_) if same_seek => "region-whose-first-chunk-starts-where-the-previous-seek-went",
-                        Some(_) => "region",
-                        None => "none",
+                    tainted = true;
+                    let qclass = q.map(|q| q.class()).unwrap_or("none");
+                    // diagnosis: does the same operation, alone on a FRESH reader, agree with the sync answer?
+                    let fresh = match q {
+                        Some(q1 @ (qy::Q::Region(..) | qy::Q::Partial(..) | qy::Q::Unmapped)) => {
+                            let one = vec![q1.clone()];
+                            let se = guard::catch(|| qy::run_sync(mode, &data.bytes, &index.bytes, &data.side, &one)).ok().and_then(|r| r.ok()).map(|t| norm(strip_all(t)));
+                            let src = PollRead::new(bytes.clone(), cfg.script.clone());
+                            let ae = rt::run(cfg.flavor, qy::run_async(mode, src, data.bytes.clone(), index.bytes.clone(), data.side.clone(), one, cfg.workers)).ok().and_then(|r| r.ok()).map(|t| norm(strip_all(t)));
+                            match (se, ae) {
+                                (Some(a), Some(b)) if a == b => "only-on-the-reused-reader",
+                                (Some(_), Some(_)) => "also-on-a-fresh-reader",
+                                _ => "fresh-reader-not-diagnosed",
+                            }
+                        }
+                        _ => "state-dependent-operation",
                     };
-                    let sig = if same_seek && qclass != "unmapped" { format!("{sig_prefix}:{qclass}") } else { format!("{sig_prefix}:{class}:{qclass}") };
+                    let sig = format!("{sig_prefix}:{class}:{qclass}:{fresh}");
                     if sigs.contains(&sig) {
                         continue;
                     }
@@ -1123,11 +1369,11 @@ fn run_qy(o: &mut CaseOut, data: &Item, index: &Item, mode: qy::Mode, qseed: u64
                     o.violation(
                         sig,
                         format!(
-                            "{} + {}: query #{qi} {:?} of the history {:?}: element #{i} of its results: sync: {:?}; async: {:?} (sync {} elements, async {}) [{}]",
+                            "{} + {}: operation #{qi} {:?} of the history {:?}: element #{i} of its results: sync: {:?}; async: {:?} (sync {} elements, async {}; V@n = uncompressed offset denoted by the BGZF reader's virtual position after the operation) [{}]",
                             data.name,
                             index.name,
-                            queries.get(qi).map(|q| q.describe()),
-                            queries.iter().map(|q| q.describe()).collect::<Vec<_>>(),
+                            q.map(|q| q.describe()),
+                            queries.iter().take(qi + 1).map(|q| q.describe()).collect::<Vec<_>>(),
                             e.get(i).map(|s| short(s)),
                             g.get(i).map(|s| short(s)),
                             e.len(),
